@@ -426,6 +426,9 @@ class PyModel:
     # ------------------------------------------------------------- call graph
     def callee(self, fi: FuncInfo, call: ast.Call, env: Optional[dict[str, str]] = None) -> Optional[str]:
         """Qualified name of the zorg function/class a call targets, if resolvable."""
+        origin = getattr(call, "_zv_q", None)  # node of a flattened view: resolve in the function it came from
+        if origin is not None and origin in self.funcs and env is None:
+            fi = self.funcs[origin]
         env = env if env is not None else self.local_env(fi)
         f = call.func
         mi = fi.module
